@@ -7,7 +7,7 @@ import engine as E
 
 PROP = "C16"
 TOK_OPS = ["u2f_disable", "u2f_enable", "u2f_delete", "u2f_rename", "totp_disable", "totp_enable", "totp_delete", "totp_rename",
-           "totp_gen", "u2f_regbegin", "webauthn_regbegin", "totp_auth"]
+           "totp_gen", "u2f_regbegin", "webauthn_regbegin", "totp_auth", "u2f_auth", "webauthn_auth"]
 BOOT_OPS = ["botp_use", "botp_gen", "totp_gen", "u2f_regbegin", "webauthn_regbegin"]
 
 
@@ -76,7 +76,7 @@ def run(tier, seed, work, replay):
                 res.sample({"deviation": d, "event": ev})
     evs, devs = execute(cpath, "all")
     tokens_prof = {"u2f": {"present": True, "enabled": True, "name": 0}, "totp": {"present": True, "enabled": True, "name": 0},
-                   "pending": False, "regchal": False, "wchal": False, "totpUsed": False, "botp": 0}
+                   "pending": False, "regchal": False, "wchal": False, "totpUsed": False, "botp": 0, "chal": True}
     race_ev = {"ev": "Run", "case": -1, "world": "tokens", "ops": [], "schedule": [], "results": [], "final": tokens_prof,
                "race": bool(races), "panic": False, "i": len(evs), "race_frames": races[:5]}
     if races:
@@ -100,7 +100,7 @@ def run(tier, seed, work, replay):
         sg = {"action": "Run", "guards": guards, "ops": sorted(set(ev["ops"])), "world": ev["world"], "interleaved": inter}
         if "G_C16_OneSpend" in guards:
             # which one-time value was honoured more than once
-            sg["double_spent"] = sorted({op for op in ("totp_auth", "botp_use")
+            sg["double_spent"] = sorted({op for op in ("totp_auth", "botp_use", "u2f_auth", "webauthn_auth")
                                          if sum(1 for o, r in zip(ev["ops"], ev["results"]) if o == op and r == "ok") > 1})
         return sg
     unknown = []
